@@ -82,6 +82,24 @@ fn issue(w: &mut World, a: usize, api: usize, watches: &mut Vec<PutWatch>) -> us
         watches.push(PutWatch { call: c, rx });
         c
     };
+    if w.sync_api {
+        // the blocking API: every call is the typed method, on a helper thread of its own
+        return match api {
+            0 => w.call_find_node(a, x().into()),
+            1 => w.call_get_closest_nodes(a, x().into()),
+            2 => w.call_get_immutable(a, x().into()),
+            3 => w.call_get_peers(a, x().into()),
+            4 => w.call_put_immutable(a, VX.to_vec()),
+            5 => w.call_announce_peer(a, x().into(), Some(999)),
+            6 => w.call_put_mutable(a, m_item(), None),
+            7 => w.call_find_node(a, *m_item().target()),
+            8 => w.call_put_immutable(a, VY.to_vec()),
+            9 => w.call_bootstrapped(a),
+            10 => w.call_get_mutable(a, *m_item().key(), None, None),
+            11 => w.call_announce_signed_peer(a, S_HASH.into(), krpc::signing_key(0x62)),
+            _ => w.call_get_signed_peers(a, S_HASH.into()),
+        };
+    }
     match api {
         0 => w.call_find_node(a, x().into()),
         1 => w.call_get_closest_nodes(a, x().into()),
@@ -149,9 +167,9 @@ fn open_iterator(which: usize, out: &mut Partial) {
     let names = ["get_peers", "get_mutable", "get_signed_peers"];
     // the sync API: creating the iterator enqueues the lookup and returns at once
     enum Held {
-        Peers(Box<dyn Iterator<Item = Vec<SocketAddrV4>>>),
-        Mutable(Box<dyn Iterator<Item = MutableItem>>),
-        Signed(Box<dyn Iterator<Item = Vec<dht::verif::SignedAnnounce>>>),
+        Peers(Box<dyn Iterator<Item = Vec<SocketAddrV4>> + Send>),
+        Mutable(Box<dyn Iterator<Item = MutableItem> + Send>),
+        Signed(Box<dyn Iterator<Item = Vec<dht::verif::SignedAnnounce>> + Send>),
     }
     let held = match which {
         0 => Held::Peers(Box::new(dht.as_sync().get_peers(target.into()))),
@@ -188,13 +206,23 @@ fn open_iterator(which: usize, out: &mut Partial) {
     } else {
         out.add("all_calls_completed", 1);
     }
-    // now drain it: the stream must have ended
-    let n = match held {
+    // now drain it (on a helper thread: a stream that never ends must not hang the check): the
+    // lookup is over, so the stream must end
+    let drained = run_blocking(move || match held {
         Held::Peers(i) => i.count(),
         Held::Mutable(i) => i.count(),
         Held::Signed(i) => i.count(),
-    };
-    out.outcomes.insert(format!("open-iterator:{}:items{}", names[which], n.min(5)));
+    });
+    match drained {
+        Some(n) => {
+            out.outcomes.insert(format!("open-iterator:{}:items{}", names[which], n.min(5)));
+        }
+        None => out.violation(
+            format!("stream-never-ends/open-{}-iterator", names[which]),
+            format!("the lookup behind a sync {} iterator is over (later calls completed, nothing in flight), but draining the iterator blocks for ever", names[which]),
+            json!({"part": "open-iterator", "which": which}),
+        ),
+    }
 }
 
 #[derive(Clone, Debug)]
@@ -206,6 +234,8 @@ pub(crate) struct Script {
     pub at_event: Option<u32>,
     pub after: u64,
     pub real_peers: bool,
+    /// the calls go through the blocking `Dht` API (typed methods, one helper thread per call)
+    pub sync: bool,
 }
 
 pub(crate) struct Out {
@@ -263,6 +293,7 @@ pub(crate) fn scenario(chooser: Chooser, sc: &Script, faults: bool, track: bool)
     });
 
     // ---- the calls
+    w.sync_api = sc.sync;
     w.faults.menu = vec![Fate::Deliver(DEFAULT_LATENCY), Fate::Drop, Fate::Dup(DEFAULT_LATENCY, 40 * MS), Fate::Deliver(900 * MS)];
     w.faults.enabled = faults;
     w.fault_filter = Some(Box::new(move |d: &Datagram| d.to == a_addr || d.from == a_addr));
@@ -423,7 +454,7 @@ pub(crate) fn scenario(chooser: Chooser, sc: &Script, faults: bool, track: bool)
 }
 
 fn sc_json(s: &Script) -> Value {
-    json!({"first": s.first, "second": s.second, "at_event": s.at_event, "after_ms": s.after / MS, "real_peers": s.real_peers})
+    json!({"first": s.first, "second": s.second, "at_event": s.at_event, "after_ms": s.after / MS, "real_peers": s.real_peers, "sync": s.sync})
 }
 
 fn sc_desc(s: &Script) -> String {
@@ -463,8 +494,8 @@ fn record(s: &Script, choices: &[u32], trace: &[crate::explore::ChoicePoint], o:
             (Some(_), None) => format!("after{}s", s.after / SEC),
         };
         out.violation(
-            format!("{key}/after:{}/{placement}/{}{}", API_NAMES[s.first], if devs.is_empty() { "no-fault".to_string() } else { devs.join("+") }, if s.real_peers { "/real-peers" } else { "" }),
-            format!("{}{}: {desc}", sc_desc(s), if devs.is_empty() { String::new() } else { format!(" with deviations {devs:?} at choice points {:?}", choices.iter().enumerate().filter(|(_, c)| **c > 0).map(|(i, _)| i).collect::<Vec<_>>()) }),
+            format!("{key}/after:{}/{placement}/{}{}", API_NAMES[s.first], if devs.is_empty() { "no-fault".to_string() } else { devs.join("+") }, format!("{}{}", if s.real_peers { "/real-peers" } else { "" }, if s.sync { "/blocking-api" } else { "" })),
+            format!("{}{}{}: {desc}", if s.sync { "[blocking Dht API] " } else { "" }, sc_desc(s), if devs.is_empty() { String::new() } else { format!(" with deviations {devs:?} at choice points {:?}", choices.iter().enumerate().filter(|(_, c)| **c > 0).map(|(i, _)| i).collect::<Vec<_>>()) }),
             json!({"script": sc_json(s), "choices": choices}),
         );
     }
@@ -478,41 +509,44 @@ fn run(tier: Tier, shard: usize, nshards: usize, _seed: u64) -> Partial {
         unit % nshards == shard
     };
     if shard == 0 {
-        let s = Script { first: 4, second: Some(2), at_event: Some(3), after: 0, real_peers: false };
+        let s = Script { first: 4, second: Some(2), at_event: Some(3), after: 0, real_peers: false, sync: false };
         let (_, a) = scenario(Chooser::default_run(), &s, false, true);
         let (_, b) = scenario(Chooser::default_run(), &s, false, true);
         assert!(a.steps == b.steps && a.digests.len() == b.digests.len() && a.results == b.results, "MACHINERY: scenario is not deterministic");
     }
-    // ---- part A: pairs x placements
-    for first in 0..N_APIS {
+    // ---- part A: pairs x placements, through the async API and through the blocking one
+    for (first, sync) in (0..N_APIS).flat_map(|f| [(f, false), (f, true)]) {
         // how many network events does the first call's lifetime have?
-        let (_, base) = scenario(Chooser::default_run(), &Script { first, second: None, at_event: None, after: 0, real_peers: false }, false, false);
+        let (_, base) = scenario(Chooser::default_run(), &Script { first, second: None, at_event: None, after: 0, real_peers: false, sync }, false, false);
         if mine() {
-            record(&Script { first, second: None, at_event: None, after: 0, real_peers: false }, &[], &[], &base, &mut out);
+            record(&Script { first, second: None, at_event: None, after: 0, real_peers: false, sync }, &[], &[], &base, &mut out);
         }
         for second in 0..N_APIS {
-            let mut placements: Vec<Script> = (0..=base.events_first).map(|n| Script { first, second: Some(second), at_event: Some(n), after: 0, real_peers: false }).collect();
+            let mut placements: Vec<Script> = (0..=base.events_first).map(|n| Script { first, second: Some(second), at_event: Some(n), after: 0, real_peers: false, sync }).collect();
             for after in [SEC, 4 * MIN, 6 * MIN] {
-                placements.push(Script { first, second: Some(second), at_event: None, after, real_peers: false });
+                placements.push(Script { first, second: Some(second), at_event: None, after, real_peers: false, sync });
             }
             for s in placements {
                 if !mine() {
                     continue;
                 }
                 let (_, o) = scenario(Chooser::default_run(), &s, false, false);
+                if sync {
+                    out.add("blocking_api_executions", 1);
+                }
                 record(&s, &[], &[], &o, &mut out);
             }
         }
     }
     // ---- part B / C: faults on single calls
     let bound = if tier.is_quick() { 1 } else { 2 };
-    for real_peers in [false, true] {
+    for (real_peers, sync) in [(false, false), (true, false), (false, true)] {
         for first in 0..N_APIS {
             if !mine() {
                 continue;
             }
-            let s = Script { first, second: None, at_event: None, after: 0, real_peers };
-            let mut ex = Explorer::new(if real_peers { 1 } else { bound }, (0, 1));
+            let s = Script { first, second: None, at_event: None, after: 0, real_peers, sync };
+            let mut ex = Explorer::new(if real_peers || sync { 1 } else { bound }, (0, 1));
             if !tier.is_quick() {
                 ex.deadline = Some(std::time::Instant::now() + std::time::Duration::from_secs(20 * 60));
             }
@@ -536,7 +570,7 @@ fn run(tier: Tier, shard: usize, nshards: usize, _seed: u64) -> Partial {
                 if t1 == t2 || !mine() {
                     continue;
                 }
-                let s = Script { first, second: Some(second), at_event: Some(0), after: 0, real_peers: false };
+                let s = Script { first, second: Some(second), at_event: Some(0), after: 0, real_peers: false, sync: false };
                 let mut ex = Explorer::new(1, (0, 1));
                 ex.explore(&mut |chooser, _| {
                     let (ch, o) = scenario(chooser, &s, true, false);
@@ -555,7 +589,7 @@ fn run(tier: Tier, shard: usize, nshards: usize, _seed: u64) -> Partial {
                     if !mine() {
                         continue;
                     }
-                    let s = Script { first, second: Some(second), at_event, after, real_peers: false };
+                    let s = Script { first, second: Some(second), at_event, after, real_peers: false, sync: false };
                     let mut ex = Explorer::new(1, (0, 1));
                     ex.explore(&mut |chooser, _| {
                         let (ch, o) = scenario(chooser, &s, true, false);
@@ -590,6 +624,7 @@ fn replay(v: &Value) -> Result<Option<Violation>, String> {
         at_event: s.get("at_event").and_then(|x| x.as_u64()).map(|x| x as u32),
         after: s.get("after_ms").and_then(|x| x.as_u64()).unwrap_or(0) * MS,
         real_peers: s.get("real_peers").and_then(|x| x.as_bool()).unwrap_or(false),
+        sync: s.get("sync").and_then(|x| x.as_bool()).unwrap_or(false),
     };
     let choices: Vec<u32> = v.get("choices").and_then(|c| c.as_array()).map(|a| a.iter().filter_map(|x| x.as_u64().map(|x| x as u32)).collect()).unwrap_or_default();
     let faults = !choices.is_empty();
